@@ -295,9 +295,10 @@ impl<P: Pairing> PrimeGroup for PairingOutput<P> {
     }
 
     fn mul_bits_be(&self, other: impl Iterator<Item = bool>) -> Self {
-        // Convert back from bits to [u64] limbs
-        let other = other
-            .collect::<Vec<_>>()
+        // Convert back from big-endian bits to little-endian [u64] limbs
+        let mut bits = other.collect::<Vec<_>>();
+        bits.reverse();
+        let other = bits
             .chunks(64)
             .map(|chunk| {
                 chunk
